@@ -347,14 +347,15 @@ def istreamRead {σ : Type} (I : StreamI σ) (s : σ) (size : Nat) (os : OS) : R
   let size := if size > 0x7FFFFFFF then 0x7FFFFFFF else size
   istreamReadLoop I (size + 1) s size [] os
 
-/-- `sqfs_istream_skip` (stream_api.c:45-66): `.ok` also when the data ends early. -/
+/-- `sqfs_istream_skip` (stream_api.c:47-73): when the stream reports the end of its data while bytes are still to
+be skipped, the call fails with `SQFS_ERROR_OUT_OF_BOUNDS` (everything that was there has been consumed). -/
 def istreamSkipLoop {σ : Type} (I : StreamI σ) : Nat → σ → Nat → OS → Err × σ × OS
   | 0, s, _, os => (.fuel, s, os)
   | fuel + 1, s, size, os =>
     if size = 0 then (.ok, s, os) else
     match I.get s size os with
     | (.fail e, _, s', os') => (e, s', os')
-    | (.eof, _, s', os') => (.ok, s', os')
+    | (.eof, _, s', os') => (.oob, s', os')                              -- ret > 0: return SQFS_ERROR_OUT_OF_BOUNDS
     | (.ok, w, s', os') =>
       let diff := if w.length > size then size else w.length
       istreamSkipLoop I fuel (I.adv s' diff) (size - diff) os'
